@@ -24,6 +24,7 @@ import (
 	"strconv"
 	"strings"
 	"sync"
+	"time"
 
 	"github.com/ollama/ollama/api"
 	"github.com/ollama/ollama/llm"
@@ -76,7 +77,9 @@ func c19Content(j int, m c19Msg) string {
 	return strings.Repeat(l, m.Len)
 }
 
-func c19ImageBytes(j, k int) []byte { return []byte{'i', 'm', 'g', ':', byte('0' + j), ':', byte('0' + k)} }
+func c19ImageBytes(j, k int) []byte {
+	return []byte{'i', 'm', 'g', ':', byte('0' + j), ':', byte('0' + k)}
+}
 
 func c19ImageID(b []byte) (j, k int, ok bool) {
 	if len(b) != 7 || string(b[:4]) != "img:" || b[5] != ':' {
@@ -704,10 +707,11 @@ func ZZVerifC19() {
 		{M: 1, Alphabet: "full", CtxHi: true, Mllama: true},
 		{M: 2, Alphabet: "full", CtxHi: true, Mllama: true},
 		{M: 3, Alphabet: "full", CtxHi: true, Mllama: true},
-		{M: 4, Alphabet: "mid"},
+		{M: 4, Alphabet: "full", Mllama: true},
 		{M: 5, Alphabet: "text"},
 		{M: 6, Alphabet: "text"},
 	}
+	budget := 110 * time.Second
 	if thorough {
 		levels = []c19Level{
 			{M: 1, Alphabet: "full", CtxHi: true, Mllama: true},
@@ -718,7 +722,13 @@ func ZZVerifC19() {
 			{M: 6, Alphabet: "user-one-image"},
 			{M: 7, Alphabet: "text"},
 		}
+		budget = 18 * time.Minute
 	}
+	if v := os.Getenv("C19_BUDGET_S"); v != "" { // development aid / slow machines
+		n, _ := strconv.Atoi(v)
+		budget = time.Duration(n) * time.Second
+	}
+	r.SetDeadline(budget)
 	if v := os.Getenv("C19_LEVELS"); v != "" { // development aid: JSON list of levels
 		levels = nil
 		if err := json.Unmarshal([]byte(v), &levels); err != nil {
@@ -758,6 +768,10 @@ func ZZVerifC19() {
 		var pmu sync.Mutex
 		picks := map[string]any{}
 		r.Parallel(0, items, func(item string, sub *evid.Run) {
+			if sub.Expired() {
+				sub.Add("work_items_skipped_"+tag, 1)
+				return
+			}
 			env := c19NewEnv()
 			pick := &c19Pick{}
 			defer func() {
@@ -784,13 +798,19 @@ func ZZVerifC19() {
 			}
 			rec()
 		})
-		// two written-out cases per level: from the first and from the middle work item
+		// two written-out cases per level: the most instructive case of the work items at 1/3 and 2/3 of the list
 		smp := r.Sub()
-		smp.Sample(picks[items[0]])
-		if len(items) > 1 {
-			smp.Sample(picks[items[len(items)/2]])
+		done := map[string]bool{}
+		for _, it := range []string{items[len(items)/3], items[2*len(items)/3]} {
+			if v := picks[it]; v != nil && !done[it] {
+				smp.Sample(v)
+			}
+			done[it] = true
 		}
 		r.Merge(smp)
+		if n := r.Count("work_items_skipped_" + tag); n > 0 {
+			r.NotExhaustive(fmt.Sprintf("time budget %v reached: level m=%d (%s) skipped %d of %d work items (3-message prefixes); levels without such a note were enumerated completely", budget, lv.M, lv.Alphabet, n, len(items)))
+		}
 		bounds = append(bounds, map[string]any{"messages": lv.M, "alphabet": lv.Alphabet, "options_per_message": len(alpha), "ctx_plus_one": lv.CtxHi, "mllama": lv.Mllama,
 			"conversations": r.Count("conversations_" + tag), "evaluations": r.Count("evaluations_" + tag)})
 	}
